@@ -137,6 +137,10 @@ class OutboundSim(PeerSim):
                 L = max(1, self.live().next_num_out - 1)
                 lo = max(1, L - 6)
                 b = r.randint(lo, L)
+                if r.random() < 0.15:
+                    # a request for numbers we have not sent yet (a peer that believes to be ahead of us), or an
+                    # invalid range: inbound traffic must never move the outbound counter
+                    b = L + r.choice([1, 2, 7, 40])
                 return ["stim", "rr", b, r.choice([0, b, L])]
             if kind == "gap":
                 return ["stim", "gap", r.randint(1, 3), 0]
